@@ -26,7 +26,8 @@ pub fn plans(prop: &str) -> Vec<Plan> {
         "C02" => vec![r(RProp::C02, 90_000, 4_000_000)],
         "C08" => vec![r(RProp::C08, 160_000, 5_000_000)],
         "C09" => vec![r(RProp::C09, 70_000, 3_000_000)],
-        "C11" => vec![r(RProp::C11Scalar, 100_000, 2_000_000), r(RProp::C11Pair, 100_000, 2_000_000), h(HProp::C11, 100_000, 2_000_000)],
+        "C11" => vec![r(RProp::C11Scalar, 100_000, 2_000_000), r(RProp::C11Pair, 100_000, 2_000_000), h(HProp::C11, 100_000, 2_000_000),
+            Plan { scenario: Box::new(crate::doubling::DoublingScenario) as Box<dyn Scenario>, runs_quick: 20_000, runs_thorough: 400_000 }],
         "C14" => vec![r(RProp::C14, 400_000, 8_000_000)],
         "C17" => vec![r(RProp::C17Scalar, 150_000, 3_000_000), r(RProp::C17Pair, 150_000, 3_000_000), h(HProp::C17, 100_000, 2_000_000)],
         "C18" => vec![d(DProp::C18, false, 200_000, 4_000_000), r(RProp::C18Scalar, 50_000, 1_000_000), r(RProp::C18Pair, 50_000, 1_000_000), h(HProp::C18, 100_000, 2_000_000)],
